@@ -1,4 +1,81 @@
+import LdarModel.Model.Window
 import LdarModel.Driver.Proto
-/- driver stub: replaced by the component's real driver -/
-open LdarModel.Proto
-def main : IO Unit := runDriver (fun (_ : Unit) (_ : List String) => ((), "bad-op")) ()
+/-
+Driver for the estimation-window model (exact arithmetic, `exactFloor`).
+  table <mode 0=site|1=comp> <p> <q> <S> <E> [[site,eqg,comp,date,rate],...]     (eqg/comp -1 = None)
+    -> site,eqg,comp:[[start,stop,date,rate,volNum],...]|...      groups in order of first occurrence
+       ("none" when there is no group)
+  offs <p> <q> <g0> <g1>
+    -> for every gap g0..g1 six integers, space separated:
+       endOffset g True, endOffset g False, startOffset g True, startOffset g False,
+       startOffsetCeil g True, startOffsetCeil g False
+  share <p> <q> <g0> <g1>
+    -> for every gap g0..g1 two integers: floor(g·f) ceil(g·f)
+  tiles <S> <E> [[start,stop],...]  -> 1/0   (the model's own `Tiles` predicate)
+-/
+open LdarModel LdarModel.Window LdarModel.Proto
+
+def optId (i : Int) : Option Nat := if i < 0 then none else some i.toNat
+def showOptId : Option Nat → String
+  | none => "-1"
+  | some n => toString n
+
+def parseRec (s : String) : Option Rec := do
+  match ← intList? s with
+  | [st, e, c, d, r] =>
+    if st < 0 then none
+    else some { site := st.toNat, eqg := optId e, comp := optId c, date := d, rate := r }
+  | _ => none
+
+def showWin (w : Win) : String :=
+  s!"[{w.start},{w.stop},{w.date},{w.rate},{w.volNum}]"
+
+def showGroup (kw : Key × List Win) : String :=
+  s!"{kw.1.site},{showOptId kw.1.eqg},{showOptId kw.1.comp}:" ++ showList showWin kw.2
+
+def gapsOf (g0 g1 : Int) : List Int :=
+  if g1 < g0 then [] else (List.range ((g1 - g0).toNat + 1)).map (fun (i : Nat) => g0 + Int.ofNat i)
+
+def parseWin2 (s : String) : Option Win := do
+  match ← intList? s with
+  | [a, b] => some { start := a, stop := b, date := a, rate := 0 }
+  | _ => none
+
+def step (_ : Unit) (toks : List String) : Unit × String :=
+  match toks with
+  | ["table", m, p, q, s, e, recs] =>
+    match nat? m, int? p, int? q, int? s, int? e, listOf? parseRec recs with
+    | some m, some p, some q, some s, some e, some recs =>
+      if q ≤ 0 ∨ m > 1 then ((), "bad-op")
+      else
+        let mode := if m = 0 then Mode.site else Mode.comp
+        let rep := report mode (exactFloor { p := p, q := q }) s e recs
+        ((), if rep.isEmpty then "none" else "|".intercalate (rep.map showGroup))
+    | _, _, _, _, _, _ => ((), "bad-op")
+  | ["offs", p, q, g0, g1] =>
+    match int? p, int? q, int? g0, int? g1 with
+    | some p, some q, some g0, some g1 =>
+      if q ≤ 0 then ((), "bad-op")
+      else
+        let f : Fac := { p := p, q := q }
+        let ρ := exactFloor f
+        let one (g : Int) : String :=
+          s!"{endOffset ρ g true} {endOffset ρ g false} {startOffset ρ g true} {startOffset ρ g false} {startOffsetCeil f g true} {startOffsetCeil f g false}"
+        ((), " ".intercalate ((gapsOf g0 g1).map one))
+    | _, _, _, _ => ((), "bad-op")
+  | ["share", p, q, g0, g1] =>
+    match int? p, int? q, int? g0, int? g1 with
+    | some p, some q, some g0, some g1 =>
+      if q ≤ 0 then ((), "bad-op")
+      else
+        let f : Fac := { p := p, q := q }
+        let one (g : Int) : String := s!"{exactFloor f g false} {startOffsetCeil f g false}"
+        ((), " ".intercalate ((gapsOf g0 g1).map one))
+    | _, _, _, _ => ((), "bad-op")
+  | ["tiles", s, e, ws] =>
+    match int? s, int? e, listOf? parseWin2 ws with
+    | some s, some e, some ws => ((), showBool (decide (Tiles s e ws)))
+    | _, _, _ => ((), "bad-op")
+  | _ => ((), "bad-op")
+
+def main : IO Unit := runDriver step ()
